@@ -1,6 +1,7 @@
 package main
 
 import (
+	"go/token"
 	"sync"
 
 	"golang.org/x/tools/go/ssa"
@@ -16,7 +17,6 @@ import (
 
 var (
 	worldOfProg sync.Map // *ssa.Program -> *World
-	transCache  sync.Map // *ssa.Function -> *ssa.Call (nil when not transparent)
 )
 
 func worldFor(f *ssa.Function) *World {
@@ -34,23 +34,26 @@ func transparentSite(f *ssa.Function) *ssa.Call {
 	if f == nil {
 		return nil
 	}
-	if v, ok := transCache.Load(f); ok {
+	w := worldFor(f)
+	if w == nil {
+		return nil
+	}
+	if v, ok := w.transCache.Load(f); ok {
 		c, _ := v.(*ssa.Call)
 		return c
 	}
 	var res *ssa.Call
 	defer func() {
 		if res == nil {
-			transCache.Store(f, (*ssa.Call)(nil))
+			w.transCache.Store(f, (*ssa.Call)(nil))
 		} else {
-			transCache.Store(f, res)
+			w.transCache.Store(f, res)
 		}
 	}()
 	if f.Parent() != nil || f.Blocks == nil || f.Synthetic != "" || f.Pkg == nil {
 		return nil
 	}
-	w := worldFor(f)
-	if w == nil || !w.inFuncs(f) {
+	if !w.inFuncs(f) {
 		return nil
 	}
 	loadFrozen()
@@ -204,5 +207,49 @@ func (w *World) deepInstrs(f *ssa.Function, depth int) []deepInstr {
 		}
 	}
 	walk(f, nil, depth, map[*ssa.Function]bool{f: true})
+	return out
+}
+
+// Release drops the global reference to a World so that a mutated copy can be collected.
+func (w *World) Release() { worldOfProg.Delete(w.Prog) }
+
+// condAtomsDeep: canonical strings of every condition f (or a transparent helper under it) tests — branch
+// conditions in both polarities, plus comparisons a transparent predicate helper returns as its value
+// (`return a || (b && c)` branches on a and b but returns c).
+func (w *World) condAtomsDeep(f *ssa.Function) map[string]bool {
+	out := map[string]bool{}
+	for _, ea := range condEdgesDeep(f) {
+		out[w.canonAtom(ea.A)] = true
+	}
+	for _, h := range transparentBodies(f) {
+		if !isPredicate(h) {
+			continue
+		}
+		var visit func(v ssa.Value, d int)
+		visit = func(v ssa.Value, d int) {
+			if d > 5 {
+				return
+			}
+			switch x := v.(type) {
+			case *ssa.Const:
+				return
+			case *ssa.Phi:
+				for _, e := range x.Edges {
+					visit(e, d+1)
+				}
+				return
+			case *ssa.UnOp:
+				if x.Op == token.NOT {
+					visit(x.X, d+1)
+					return
+				}
+			}
+			out[w.canonAtom(normCond(v, true))] = true
+			out[w.canonAtom(normCond(v, false))] = true
+		}
+		for _, r := range returnsOf(h) {
+			visit(r.(*ssa.Return).Results[0], 0)
+		}
+	}
 	return out
 }
